@@ -1,5 +1,6 @@
 (* C11 driver: evaluates the extracted hash models.  One case per line:
      <h>.perm r0 .. r(w-1)            -> residues of the permuted state          (h = rp64 | jive)
+     <h>.permraw w0 .. w(w-1)         -> internal words of the permuted state (raw model: generated f64 ops + mds_multiply)
      <h>.hash <hexbytes>              -> 4 residues | panic                      (h = rp64 | rp62 | jive)
      <h>.he <deg> <flat residues|->   -> 4 residues   (elements of extension degree deg, coefficient-flattened)
      <h>.merge a0..a3 b0..b3          -> 4 residues
@@ -32,6 +33,8 @@ let eval toks =
       match (Stdlib.String.split_on_char '.' op, args) with
       | [ "rp64"; "perm" ], _ -> hs (Rescue.rp64_permutation (zs args))
       | [ "jive"; "perm" ], _ -> hs (Rescue.jive_permutation (zs args))
+      | [ "rp64"; "permraw" ], _ -> hs (Rescue.rp64_raw_permutation (zs args))
+      | [ "jive"; "permraw" ], _ -> hs (Rescue.jive_raw_permutation (zs args))
       | [ "rp62"; "perm" ], _ -> hs (Rescue.rp62_permutation (zs args))
       | [ "rp64"; "hash" ], [ b ] -> opt (Rescue.rp64_hash (bytes_of_hex b))
       | [ "rp62"; "hash" ], [ b ] -> opt (Rescue.rp62_hash (bytes_of_hex b))
